@@ -34,9 +34,14 @@ TRUSTED = ['harness/props/c20.py (layout/assignment generators, yaml+toml render
            'steps, handle_path recorder, audit hook recording opened files); the harness\'s book-keeping of the '
            'environment per step is cross-checked against os.environ as seen by the child',
            'harness/extract_c20.py (ast -> Generated/ConfigProps.lean)',
+           'stream rawyaml: a yaml text loaded ALONE in a pristine process (impl_c20.load_alone: fresh interpreter of the tree under test, '
+           'fresh Config().load_yaml) is "what that file states"',
            'ruamel.yaml / tomllib parse the rendered files to the payload the case declares '
            '(validated by the correspondence itself)']
-ASSUMPTIONS = ['pathlib joins paths the posix way: the macOS and Windows branches of pypyr.platform are tied on this posix host '
+ASSUMPTIONS = ['TextOnly (lean/PypyrModel/Config.lean): the mapping of a config file is a function of its text alone - assumed by the theorems '
+               'of Props/C20.lean section 15, TESTED by the stream rawyaml (every file also loaded alone in a pristine process) and tied '
+               'statically (parser_per_load_agrees: load_yaml builds its parser inside the call)',
+               'pathlib joins paths the posix way: the macOS and Windows branches of pypyr.platform are tied on this posix host '
                'with sys.platform / os.pathsep patched in the child (ntpath is not modelled)',
                'an environment with $ANDROID_DATA=/data and $ANDROID_ROOT=/system declares the platform to be Android (that is how '
                'pypyr decides it): the Android branch (jnius / sys.path scan for the app folder; OSError out of init() when there is none) '
@@ -910,6 +915,180 @@ def history_cases(rng, res, quick):
     return out
 
 
+# --------------------------------------------------------------------------
+# raw yaml texts: `%YAML` directives and plain scalars whose reading depends on the yaml version
+# --------------------------------------------------------------------------
+# The payload of such a file is NOT declared by the generator: it is what the tree under test makes of the text when the
+# file is loaded ALONE in a pristine process (impl_c20.load_alone: fresh interpreter, fresh Config(), load_yaml) - "the
+# value that file states". `resolve_alone` fills it in; model and monitor then work on these payloads as on any other.
+
+VDEP = ['on', 'off', 'yes', 'no', 'y', 'n', 'Yes', 'NO', 'On', 'OFF', 'True', 'false', '0777', '0o17', '0o777', '1:30', '190:20:30',
+        '1_000', '0b101', '007', '0x1F', '12', '-0', '~', 'null', 'Null', "'on'", '"0777"', "'1:30'", 'plain text', 'on off', 'x']
+RAW_SCALARS = ['default_group', 'default_success_group', 'default_failure_group', 'json_indent', 'pipelines_subdir', 'log_date_format',
+               'log_notify_format', 'log_detail_format', 'default_backoff', 'json_ascii', 'no_cache', 'default_loader']
+DIRECTIVE = {None: '', '1.1': '%YAML 1.1\n---\n', '1.2': '%YAML 1.2\n---\n'}
+YAML_LOCS = {'c2': f'{S}/c2/pypyr/config.yaml', 'c1': f'{S}/c1/pypyr/config.yaml', 'user': f'{S}/xh/pypyr/config.yaml',
+             'global': f'{S}/g.yaml', 'local': 'pypyr-config.yaml'}
+
+
+def raw_text(directive, scalars=None, vars_=None, shortcuts=None, comment=False):
+    """scalars: {prop: plain}; vars_: {key: plain | [plain, ...] | {k: plain}}; shortcuts: {name: {arg: plain}} -> yaml text"""
+    out = DIRECTIVE[directive]
+    if comment:
+        out += '# generated\n'
+    for k, v in (scalars or {}).items():
+        out += f'{k}: {v}\n'
+    if vars_:
+        out += 'vars:\n'
+        for k, v in vars_.items():
+            if isinstance(v, list):
+                out += f'  {k}: [{", ".join(v)}]\n'
+            elif isinstance(v, dict):
+                out += f'  {k}:\n' + ''.join(f'    {kk}: {vv}\n' for kk, vv in v.items())
+            else:
+                out += f'  {k}: {v}\n'
+    if shortcuts:
+        out += 'shortcuts:\n'
+        for name, args in shortcuts.items():
+            out += f'  {name}:\n    pipeline_name: p-{name}\n    args:\n' + ''.join(f'      {a}: {v}\n' for a, v in args.items())
+    return out
+
+
+def rawfile_alone(path, text):
+    return {'path': path, 'text': text, 'payload': None, 'alone': True}
+
+
+def raw_case(tag, env, spec, texts, toml=None, script=None):
+    """texts: {path: yaml text}; toml: a [tool.pypyr] table (rendered the usual way) or None"""
+    files = [rawfile_alone(p, t) for p, t in texts.items()]
+    if toml is not None:
+        files.append(mkfile('pyproject.toml', toml))
+    case = {'tag': tag, 'env': env, 'files': files, 'spec': spec, 'rawyaml': True}
+    if script is not None:
+        case['script'] = [{'op': 'env', 'env': x[0], 'spec': x[1]} if kind == 'env' else {'op': kind, 'obj': x} for kind, x in script]
+    return case
+
+
+FULL_BODY = dict(scalars={'default_group': 'on', 'default_success_group': 'yes', 'json_indent': '0777', 'pipelines_subdir': '1:30'},
+                 vars_={'answer': 'no', 'mode': '0777', 'duration': '1:30', 'big': '1_000', 'oct': '0o17', 'lst': ['off', 'y', '007'],
+                        'sub': {'flag': 'On', 'bits': '0b101'}},
+                 shortcuts={'go': {'flag': 'off', 'mode': '0777', 'when': '1:30'}})
+QUIET_BODY = dict(scalars={'log_date_format': "'%H:%M'"})
+
+
+def rawyaml_cases(rng, res, quick):
+    """Directive / version-dependent scalars in lower- and higher-precedence files of one init()."""
+    out = []
+
+    def lay(locs):
+        return layout(commons=('c1', 'c2'), user='xh', glob='g.yaml' if 'global' in locs else None)
+    pairs = [('c2', 'c1'), ('c2', 'user'), ('c1', 'user'), ('c2', 'local'), ('c1', 'local'), ('user', 'local'), ('global', 'local')]
+    # 1. the directive in a LOWER file that sets nothing version-dependent; scalars / vars / shortcuts in a HIGHER file
+    for ver in ('1.1', '1.2'):
+        for lo, hi in pairs:
+            env, spec = lay((lo, hi))
+            out.append(raw_case(f'rawyaml:directive-{ver}-low:{lo}<{hi}', env, spec,
+                                {YAML_LOCS[lo]: raw_text(ver, **QUIET_BODY), YAML_LOCS[hi]: raw_text(None, **FULL_BODY)},
+                                toml={'vars': {'t': 'on'}, 'default_failure_group': 'off'} if (lo, hi) in (('c1', 'local'), ('user', 'local')) else None))
+    # 2. the directive in the HIGHEST file only: it must not leak back (one init: it cannot; kept for the histories below)
+    for lo, hi in pairs[2:]:
+        env, spec = lay((lo, hi))
+        out.append(raw_case(f'rawyaml:directive-high-only:{lo}<{hi}', env, spec,
+                            {YAML_LOCS[lo]: raw_text(None, **FULL_BODY), YAML_LOCS[hi]: raw_text('1.1', scalars={'default_backoff': 'on', 'no_cache': 'yes'})}))
+    # 3. two / three files with DIFFERENT directives, all of them with version-dependent scalars, some keys set twice
+    for vers, locs in [(('1.1', '1.2'), ('c2', 'local')), (('1.2', '1.1'), ('c1', 'user')), (('1.1', None), ('user', 'local')),
+                       (('1.1', '1.1'), ('c2', 'c1')), ((None, '1.1', None), ('c2', 'user', 'local')), (('1.1', None, '1.2'), ('c1', 'user', 'local')),
+                       (('1.2', '1.1'), ('global', 'local')), (('1.1', None), ('global', 'local')), (('1.1', None, None, None), ('c2', 'c1', 'user', 'local'))]:
+        env, spec = lay(locs)
+        texts = {}
+        for j, (loc, ver) in enumerate(zip(locs, vers)):
+            texts[YAML_LOCS[loc]] = raw_text(ver, scalars={'default_group': ['on', 'off', 'yes', 'no'][j], f'default_{"success" if j % 2 else "failure"}_group': '0777',
+                                                           'json_indent': ['1:30', '0o17', '1_000', '007'][j]},
+                                             vars_={'shared': ['no', 'yes', 'off', 'on'][j], f'only{j}': '0777', 'lst': ['y', 'n', str(j)]},
+                                             shortcuts={'go': {'flag': ['off', 'on', 'no', 'yes'][j]}, f'sc{j}': {'mode': '0777'}})
+        out.append(raw_case(f'rawyaml:mixed-directives:{"/".join(str(v) for v in vers)}@{"<".join(locs)}', env, spec, texts))
+    # 4. a file that is nothing but a directive (empty document) below a file with version-dependent scalars
+    for lo, hi in (('c1', 'local'), ('user', 'local'), ('global', 'local')):
+        env, spec = lay((lo, hi))
+        out.append(raw_case(f'rawyaml:directive-only-file:{lo}<{hi}', env, spec,
+                            {YAML_LOCS[lo]: '%YAML 1.1\n---\n', YAML_LOCS[hi]: raw_text(None, **FULL_BODY)}))
+    # 5. the same in ONE process over several init() calls: on the same object (the parser state of the first pass is there when
+    #    the second starts: the directive of the highest file meets the lowest file), on two objects, with the environment changed
+    hist = [('init-twice', L(), [('init', 0), ('init', 0)], ('c2', 'local'), 'high'),
+            ('init-twice-user', L(), [('init', 0), ('init', 0)], ('user', 'local'), 'high'),
+            ('new-init-twice', L(), [('new', 1), ('init', 1), ('init', 1)], ('c1', 'user'), 'high'),
+            ('two-objects', L(), [('new', 1), ('init', 1), ('new', 2), ('init', 2)], ('c2', 'local'), 'high'),
+            ('singleton-then-new', L(), [('init', 0), ('new', 1), ('init', 1)], ('user', 'local'), 'high'),
+            ('two-objects-low', L(), [('new', 1), ('init', 1), ('init', 0)], ('c1', 'local'), 'low'),
+            ('global-then-dirs', L(glob='g.yaml'), [('init', 0), ('env', L()), ('init', 0), ('new', 1), ('init', 1)], ('global', 'c1', 'local'), 'global'),
+            ('dirs-then-global', L(), [('new', 1), ('init', 1), ('env', L(glob='g.yaml')), ('init', 1)], ('global', 'c2', 'local'), 'high')]
+    for name, start, steps, locs, where in hist:
+        texts = {}
+        for j, loc in enumerate(locs):
+            directive = '1.1' if (where == 'high' and j == len(locs) - 1) or (where in ('low', 'global') and j == 0) else None
+            if directive:
+                texts[YAML_LOCS[loc]] = raw_text(directive, scalars={'default_backoff': 'on', 'no_cache': 'yes'}, vars_={f'd{j}': 'off'})
+            else:
+                texts[YAML_LOCS[loc]] = raw_text(None, scalars={'default_group': 'on', 'json_indent': ['0777', '1:30', '0o17'][j % 3]},
+                                                 vars_={'answer': 'no', f'mode{j}': '0777', 'lst': ['off', 'y']}, shortcuts={'go': {'flag': 'off', f'm{j}': '1:30'}})
+        out.append(raw_case(f'rawyaml:history:{name}', start[0], start[1], texts, script=steps))
+    # 6. random: 2-5 yaml files, each with a random directive and random plain scalars; sometimes a history of inits
+    for i in range(24 if quick else 400):
+        glob = rng.random() < 0.2
+        pool = ['global', 'local'] if glob else ['c2', 'c1', 'user', 'local']
+        locs = [l for l in pool if rng.random() < 0.75]
+        if len(locs) < 2:
+            locs = pool[-2:]
+        env, spec = layout(commons=('c1', 'c2'), user='xh', glob='g.yaml' if glob else None)
+        texts = {}
+        for loc in locs:
+            ver = rng.choice([None, None, '1.1', '1.1', '1.2'])
+            sc = {k: rng.choice(VDEP) for k in rng.sample(RAW_SCALARS, rng.randint(0, 4))}
+            noflow = lambda v: ':' not in v and ' ' not in v and v not in ('~',)
+            vs = {}
+            for k in rng.sample(['a', 'b', 'c', 'd', 'mode', 'flag'], rng.randint(0, 4)):
+                r = rng.random()
+                vs[k] = (rng.choice(VDEP) if r < 0.6 else [v for v in rng.sample(VDEP, 3) if noflow(v)] if r < 0.8
+                         else {kk: rng.choice(VDEP) for kk in rng.sample(['p', 'q', 'r'], 2)})
+            sh = {n: {a: rng.choice(VDEP) for a in rng.sample(['flag', 'mode', 'when'], rng.randint(1, 2))}
+                  for n in rng.sample(['go', 's1', 's2'], rng.randint(0, 2))}
+            texts[YAML_LOCS[loc]] = raw_text(ver, sc, vs, sh, comment=rng.random() < 0.3)
+        toml = {'vars': {'t': 'on', 'a': '0777'}, 'default_group': 'yes'} if rng.random() < 0.3 else None
+        script = None
+        if rng.random() < 0.4:
+            script, objs = [], [0]
+            for _ in range(rng.randint(2, 4)):
+                if rng.random() < 0.3 and len(objs) < 3:
+                    objs.append(len(objs))
+                    script.append(('new', objs[-1]))
+                else:
+                    script.append(('init', rng.choice(objs)))
+            if sum(1 for k, _ in script if k == 'init') < 2:
+                script.append(('init', rng.choice(objs)))
+        out.append(raw_case(f'rawyaml:random:{i}', env, spec, texts, toml=toml, script=script))
+    return out
+
+
+ALONE_CACHE = {}
+ALONE_NOTE = ('(what each yaml file states = what the tree under test makes of its text when the file is loaded ALONE in a pristine '
+              'process) ')
+
+
+def resolve_alone(cases, repo, res=None):
+    """Fill in the payload of every file marked `alone`: the text loaded ALONE in a pristine process by the tree under test."""
+    texts = list(dict.fromkeys(f['text'] for c in cases for f in c['files'] if f.get('alone') and (repo, f['text']) not in ALONE_CACHE))
+    for t, pl in zip(texts, impl_c20.load_alone_many(texts, repo)):
+        if pl.get('kind') == 'crash':
+            raise common.Infra(f"C20: loading a config text alone failed: {pl} (text {t!r})")
+        ALONE_CACHE[(repo, t)] = pl
+    if res is not None and texts:
+        res.count('alone-loads', len(texts))
+    for c in cases:
+        for f in c['files']:
+            if f.get('alone'):
+                f['payload'] = ALONE_CACHE[(repo, f['text'])]
+
+
 def all_cases(env, res):
     rng = env.rng
     cases = subset_cases(rng, res, False) + subset_cases(rng, res, True)
@@ -918,6 +1097,7 @@ def all_cases(env, res):
     cases += env_cases(rng, res, env.quick)
     cases += relative_xdg_cases(rng, res, env.quick)
     cases += syntax_cases(rng, res, env.quick) + dictprop_cases(rng, res, env.quick) + platform_cases(rng, res, env.quick)
+    cases += rawyaml_cases(rng, res, env.quick)
     hist = history_cases(rng, res, env.quick)
     n_random = env.n(40, max(0, 3000 - len(cases) - 64))
     if not env.quick:   # a second, differently assigned pass over the subsets
@@ -1258,6 +1438,7 @@ def evaluate(env, res, cases):
 
 def evaluate_files(env, res, cases):
     repo = str(common.REPO)
+    resolve_alone(cases, repo, res)
     impl = impl_c20.run_many(cases, repo)
     models = env.driver.ask_many([history_request(c) if c.get('script') is not None else model_request(c) for c in cases])
     for case, io, mo in zip(cases, impl, models):
@@ -1266,6 +1447,12 @@ def evaluate_files(env, res, cases):
             res.count('rejected-by-model')
             res.mismatch(case, {'reject': str(mo)}, io if 'steps' not in io else [norm_impl(x) for x in io['steps']],
                          'the generator produced a case outside the modelled domain')
+            continue
+        stuck = [f['path'] for f in case['files'] if f.get('alone') and (f.get('payload') or {}).get('kind') == 'hang']
+        if stuck:
+            res.case(case, nontrivial=True)
+            res.violation(case, f'load_yaml of {stuck[0]} ALONE in a pristine process had not returned after 40 s (killed)',
+                          signature={'clause': 'load-alone-never-returned'}, impl=None)
             continue
         if 'hang' in io:
             res.case(case, nontrivial=True)
@@ -1309,6 +1496,8 @@ def evaluate_files(env, res, cases):
         verdict = judge(case, {**i, 'opened': io['steps'][-1].get('opened')})
         if verdict is not None:
             detail, sig = verdict
+            if case.get('rawyaml'):
+                detail, sig = ALONE_NOTE + detail, {**sig, 'payloads': 'each-file-loaded-alone'}
             res.violation(case, detail, signature=sig, impl=i)
         if canon(m) != canon(i):
             if verdict is None:
@@ -1361,6 +1550,8 @@ def evaluate_history(res, case, steps, mo):
                     d, sig = verdict
                     hist = [f"{o}({k})" + ('' if o == 'new' else f"[skip={sp['skip']}, global={sp['global']}]")
                             for (o, k, _e, sp) in plan[:n + 1]]
+                    if case.get('rawyaml'):
+                        d, sig = ALONE_NOTE + d, {**sig, 'payloads': 'each-file-loaded-alone'}
                     verdict = (f"step {n} ({op} on object {obj} after {' -> '.join(hist)}): {d}",
                                {**sig, 'step': 'init-' + ('singleton' if obj == 0 else 'new-object'),
                                 'env_changed_since_import': envn != case['env']})
@@ -1401,7 +1592,15 @@ def run(env, res):
                 '(set / unset / falsy, several spellings), PYPYR_CONFIG_GLOBAL (set, unset, changed, missing), '
                 'PYPYR_CONFIG_LOCAL, XDG_CONFIG_DIRS / HOME, PYPYR_NO_CACHE / ENCODING after the import, between Config() '
                 'and init(), and between two init() calls on the same object or on different objects; then random '
-                'histories of 2-7 steps over 1-3 objects. Non-trivial = at least one config file exists, '
+                'histories of 2-7 steps over 1-3 objects. RAW YAML TEXTS (stream rawyaml): files written literally with a %YAML 1.1 / 1.2 '
+                'directive (or none) and plain scalars whose reading depends on the yaml version (on off yes no y n 0777 0o17 1:30 1_000 '
+                '0b101 ~ ...) as scalar settings, vars values (plain, flow list, nested mapping) and shortcut args: directive in a lower '
+                'file only (7 location pairs x 1.1 / 1.2, incl. $PYPYR_CONFIG_GLOBAL and a directive-only empty document), in the highest '
+                'file only, different directives in 2-4 files with keys set several times, [tool.pypyr] in between; the same over '
+                'init() histories in one process (same object twice, two objects, singleton then new object, environment changed in '
+                'between); 24 / 400 random ones. The payload of every such file is what the tree under test makes of the text loaded ALONE '
+                'in a pristine process (fresh interpreter, fresh Config().load_yaml); model and monitor compute the effective config from those. '
+                'Non-trivial = at least one config file exists, '
                 '$PYPYR_CONFIG_GLOBAL is set, or the case is a history.')
     cases = all_cases(env, res)
     cases = cases + update_tie_cases(env.rng)
